@@ -53,7 +53,7 @@ func runCell(c string) (out string) {
 	}
 	b, err := a08.BuildEOF(kind, preload, limit, passes, a08.DefaultEntries(n), nil, eof)
 	if err != nil {
-		return "0 - blocked construct:" + strings.ReplaceAll(err.Error(), " ", "_")
+		return "0 - closed construct" // the constructor refused the file: there is no Run and no sink
 	}
 	return a08.Observe(b, consumers, cancel, limit+passes*n+1000).String()
 }
@@ -133,6 +133,19 @@ func gen(r *vh.Rand, tier string) []string {
 				for _, n := range []int{1, 3} {
 					out = append(out, fmt.Sprintf("cell %s %d %d %d %d 1 - %d", pc.kind, pc.preload, lp[0], lp[1], n, eof))
 				}
+			}
+		}
+	}
+	// files WITHOUT entries (empty / header lines only / blanks only, by the end-of-file layout):
+	// nothing is delivered, consumers are not kept blocked, Run returns what the model of the code says
+	for _, pc := range provCfgs() {
+		for eof := 0; eof < a08.EOFLayouts; eof++ {
+			for _, lp := range [][2]int{{0, 0}, {0, 1}, {0, 2}, {3, 0}, {2, 2}} {
+				cancel := "-"
+				if lp[0] == 0 && lp[1] == 0 {
+					cancel = "1"
+				}
+				out = append(out, fmt.Sprintf("cell %s %d %d %d 0 1 %s %d", pc.kind, pc.preload, lp[0], lp[1], cancel, eof))
 			}
 		}
 	}
